@@ -62,17 +62,14 @@ func stakeParams(r *rng.R, seed uint64) Params {
 
 // stakeGen chooses the commands of the next block from the last committed view.
 type stakeGen struct {
-	R    *rng.R
-	E    *stakeExec
-	Huge bool // this history may use amounts outside int64 (never mixed with allegations: the
-	// penalty is computed in big.Float, whose rounding of 2^64-sized totals is not modelled)
-	Alleg     bool
-	Restake   bool  // may stake onto a validator whose committed record has no power
-	reqs      []int // request numbers created so far
-	nextReq   int
-	victim    int // index in the Tendermint set that stays absent for a while (missed-vote freeze)
-	victimT   int
-	anchorOut *big.Int // unstakes of the anchor validator already queued in this block
+	R       *rng.R
+	E       *stakeExec
+	Huge    bool // this history also tries amounts outside int64 (all refused since 9ac9bcb)
+	Alleg   bool
+	reqs    []int // request numbers created so far
+	nextReq int
+	victim  int // index in the Tendermint set that stays absent for a while (missed-vote freeze)
+	victimT int
 }
 
 func (g *stakeGen) stakeAddrIdx(s *sview, vi int) int {
@@ -122,7 +119,6 @@ func (g *stakeGen) next(maxTxs int) (sb stakeBlock) {
 	s := e.prev
 	h := e.Sim.Height + 1
 	sb = stakeBlock{Dt: int64(1 + r.Intn(5)), SetMaturity: -1}
-	g.anchorOut = new(big.Int)
 	if h >= 3 && r.Intn(9) == 0 {
 		sb.SetMaturity = int64(r.Intn(4))
 	}
@@ -152,11 +148,6 @@ func (g *stakeGen) next(maxTxs int) (sb stakeBlock) {
 			if r.Intn(4) == 0 {
 				di = r.Intn(len(a.Dels))
 			}
-			if rec := s.Vals[a.vRank(vi)]; rec != nil && rec.Power <= 0 && !g.Restake {
-				// known finding KF-C11-2 (record deleted under a fresh stake) is left to the
-				// histories of the restake family, so that the others explore further
-				continue
-			}
 			sb.Cmds = append(sb.Cmds, stakeCmd{Kind: "stake", V: vi, D: di, Amt: g.amount(nil)})
 		case x < 58:
 			vi := r.Intn(nReal)
@@ -165,18 +156,6 @@ func (g *stakeGen) next(maxTxs int) (sb stakeBlock) {
 				di = r.Intn(len(a.Dels))
 			}
 			amt := g.amount(bzv(s.VD, a.vRank(vi), a.dRank(di)))
-			if vi == e.P.NVals-1 {
-				// the anchor validator keeps some power: with a zero total power the fee
-				// distribution of EndBlock divides by zero and the node closes itself (S20, C18)
-				left := new(big.Int).Sub(bzv(s.VD, a.vRank(vi), a.dRank(di)), g.anchorOut)
-				if !amt.IsInt64() || amt.Sign() < 0 || new(big.Int).Sub(left, amt).Cmp(big.NewInt(2)) < 0 {
-					amt = big.NewInt(1)
-					if left.Cmp(big.NewInt(3)) < 0 {
-						continue
-					}
-				}
-				g.anchorOut.Add(g.anchorOut, amt)
-			}
 			sb.Cmds = append(sb.Cmds, stakeCmd{Kind: "unstake", V: vi, D: di, Amt: amt})
 		case x < 84:
 			di := r.Intn(len(a.Dels))
@@ -223,7 +202,7 @@ func (g *stakeGen) next(maxTxs int) (sb stakeBlock) {
 	return sb
 }
 
-const stakeRule = "case = one generated block history on the real application (2-3 genesis validators + 1-2 candidates + one never-staking identity, their owners + 1 account as delegators, staking maturity 1-3 with option changes to 0-3, 20+ blocks so that every maturity height is crossed; STAKE/UNSTAKE/WITHDRAW with boundary amounts (everything, one too many, 0) and, in a quarter of the histories, amounts around +-2^63/2^64; allegations with votes reaching verdicts, releases, missed-vote freezes), every tx offered to CheckTx first and delivered when admitted (one refused staking tx in five is delivered anyway, as a proposer may); the property monitors run on the decoded stake records after every BeginBlock/DeliverTx/EndBlock/Commit and every begin/tx/end step is re-run statelessly by the Lean model; non-trivial = at least one unstake reached maturity and was credited, one WITHDRAW succeeded and one guarded branch (frozen / insufficient / address in use / purge rule / pending allegation) rejected an operation; distinct = SHA-256 of the script lines"
+const stakeRule = "case = one generated block history on the real application (2-3 genesis validators + 1-2 candidates + one never-staking identity, their owners + 1 account as delegators, staking maturity 1-3 with option changes to 0-3, 20+ blocks so that every maturity height is crossed; STAKE/UNSTAKE/WITHDRAW with boundary amounts (everything, one too many, 0) and, in a quarter of the histories, amounts around +-2^63/2^64; unstakes down to zero and restakes onto powerless records, stakes under another stake address; allegations with votes reaching verdicts, releases, missed-vote freezes), every tx offered to CheckTx first and delivered when admitted (one refused staking tx in five is delivered anyway, as a proposer may); the property monitors run on the decoded stake records after every BeginBlock/DeliverTx/EndBlock/Commit and every begin/tx/end step is re-run statelessly by the Lean model; non-trivial = at least one unstake reached maturity and was credited, one WITHDRAW succeeded and one guarded branch (frozen / insufficient / address in use / purge rule / pending allegation) rejected an operation; distinct = SHA-256 of the script lines"
 
 // RunStake is the C11 engine.
 func RunStake(opt StakeOptions) (*Result, error) {
@@ -294,21 +273,13 @@ func RunStake(opt StakeOptions) (*Result, error) {
 			return nil, err
 		}
 		g := &stakeGen{R: r.Fork(), E: e}
-		switch c % 8 {
-		case 0, 4:
+		switch c % 4 {
+		case 0:
 			g.Huge = true
 			res.Counters["histories_with_int64_boundary_amounts"]++
-		case 1, 2, 5:
+		case 1, 2:
 			g.Alleg = true
 			res.Counters["histories_with_allegations"]++
-		case 6:
-			g.Alleg = true
-			g.Restake = true
-			res.Counters["histories_with_allegations"]++
-			res.Counters["histories_with_restake_after_zero"]++
-		case 7:
-			g.Restake = true
-			res.Counters["histories_with_restake_after_zero"]++
 		}
 		for b := 0; b < opt.Blocks && !e.stopped; b++ {
 			sb := g.next(opt.MaxTxs)
